@@ -4,12 +4,13 @@ import Cpl.Driver.OpsEvolve1D
 import Cpl.Driver.OpsEvolve2D
 import Cpl.Driver.OpsBlock
 import Cpl.Driver.OpsRules
+import Cpl.Driver.OpsCtrbl
 
 open Cpl.Proto Cpl.Driver
 
 def dispatch (line : String) : String :=
   let (op, a) := parseLine line
-  let handlers : List (String → Args → Option String) := [opsBits, opsEvolve1D, opsEvolve2D, opsBlock, opsRules]
+  let handlers : List (String → Args → Option String) := [opsBits, opsEvolve1D, opsEvolve2D, opsBlock, opsRules, opsCtrbl]
   match handlers.findSome? (fun h => h op a) with
   | some out => out
   | none => badOp
